@@ -138,7 +138,7 @@ class Gen(object):
                 st.cfg.append(c)
         return st
 
-    def request_points(self, st, n=None, v=None, pi=None):
+    def request_points(self, st, n=None, v=None, pi=None, generic=False):
         rng = self.rng
         fam = st.fam
         ps = fam.pool[st.pi if pi is None else pi]
@@ -150,6 +150,8 @@ class Gen(object):
         pts = ps.pts.gen(n, v)
         layout = ps.pts.layout
         axis = 1 if layout == "2N" else 0
+        if generic:
+            return pts, fhex(ps.times[0]), layout
         if hasattr(ps.pts, "special") and rng.random() < self.cfg.get("special_pts", 0.25):
             # unusual but legal points: region ends, simple fractions, the origin -- some or all of the request
             k_all = pts.shape[axis]
@@ -205,6 +207,25 @@ class Gen(object):
         self.ops.append(op)
         st.called = True
         st.requests.append((pts, thex, layout))
+        return op
+
+    def aux_op(self, client, st):
+        """A documented helper of the solver object, between its calls."""
+        np = world.np
+        rng = self.rng
+        name = st.qual.rsplit(".", 1)[-1]
+        if name == "SteadyDetonationReactionZone":
+            t_end = float.fromhex(rng.choice(st.requests)[1]) if st.requests and rng.random() < 0.7 else rng.choice([0.5, 1.0, 1.2, 2.0])
+            if not (t_end > 0):
+                t_end = 1.0
+            tvec = np.linspace(0.0, t_end, rng.choice([5, 11, 21, 201]))
+            op = {"op": "aux", "c": client, "obj": st.oid, "m": "run_tvec", "a": enc([tvec]),
+                  "k": enc({"useExactLambda": rng.random() < 0.6}), "fam": st.fam.name}
+        elif name in ("nED_Solver", "ie_Solver"):
+            op = {"op": "aux", "c": client, "obj": st.oid, "m": "setup_solver", "a": enc([]), "fam": st.fam.name}
+        else:
+            return None
+        self.ops.append(op)
         return op
 
     def recall(self, client, st):
@@ -290,6 +311,8 @@ class Gen(object):
         if others and rng.random() < cfg["p_share"]:
             pool = others
         st = rng.choice(pool)
+        if st.fam.name in ("sdrz", "radshock_ned", "radshock_ie") and rng.random() < 0.15 and self.aux_op(client, st) is not None:
+            return
         if r < cfg["p_recall"] and st.requests:
             self.recall(client, st)
         elif r < cfg["p_recall"] + cfg["p_scribble"] and (self.bufs or self.sols):
@@ -609,6 +632,14 @@ def make_cornerstone(seed, tier, k, prop="C06"):
         # ... and at times nearly equal to the ones already used (a "did the time change?" test with a tolerance)
         g.call_op(0, a, pa, fhex(float.fromhex(ta) * (1.0 + 2.0 ** -20)), la)
         g.call_op(0, a, pa, fhex(float.fromhex(t2) * (1.0 - 2.0 ** -36)), la)
+        if fam.gran not in ("mesh", "mader") and not getattr(fam.pool[a.pi].pts, "fixed_n", False):
+            # the same points inside a request of more than a hundred (a size threshold, a vectorised or chunked path)
+            big, _, _ = g.request_points(a, n=130, v=3)
+            axis_b = 1 if la == "2N" else 0
+            g.call_op(0, a, world.np.concatenate([pa, big], axis=axis_b), ta, la, cont="nd")
+        if a.fam.name in ("sdrz", "radshock_ned", "radshock_ie"):
+            g.aux_op(0, a)
+            g.call_op(0, a, pa, ta, la)
     if variant == "a_retry":
         # a solution for one time exists; a call at a NEW time is interrupted; the caller retries at that new time
         t_new = fhex(float.fromhex(ta) * 0.5 if float.fromhex(ta) != 0 else 0.25)
@@ -775,7 +806,7 @@ def unknown_names(cls):
             out.append(a)
     out += [n for n in COMMON_NAMES if n not in params and n not in out]
     for p in sorted(params):
-        for cand in (p.upper(), p.lower(), p + "_", p.capitalize()):
+        for cand in (p.upper(), p.lower(), p + "_", "_" + p, "__" + p, p.capitalize()):
             if cand not in params and cand not in out and cand != "verbose":
                 out.append(cand)
     return out
@@ -858,6 +889,21 @@ def conformance(g, client, qual, rng, tier):
         return
     yield
     fixed_n = getattr(fam.pool[st.pi].pts, "fixed_n", False)
+    if not fixed_n and fam.gran not in ("mesh", "ep_piston", "mader"):
+        # any N >= 1: one request of generic in-region points at the pool entry's own time, and sub-requests made of its
+        # first k points; if the full request is served, every sub-request must be served too (a request must not be
+        # refused because of how many of its points were asked for)
+        gp, t_generic, gl = g.request_points(st, n=40, v=rng.randrange(8), generic=True)
+        ax = 1 if gl == "2N" else 0
+        sizes = [1, 2, 3, 7]
+        rng.shuffle(sizes)
+        order = [40] + sizes[:2]
+        rng.shuffle(order)
+        for nn in order:
+            sub = world.np.take(gp, range(nn), axis=ax)
+            op = g.call_op(client, st, sub, t_generic, gl, cont="nd")
+            op["generic"] = nn
+            yield
     n = rng.choice([1, 2, 3, 7, 40])
     if fam.cost == "cheap" and not fixed_n_family(fam) and rng.random() < 0.06:
         n = rng.choice([300, 1500])      # more records than any buffer chunk or row batch
